@@ -247,10 +247,12 @@ def report(check, tier, seed, st, wall, nparts):
         json.dump(ev, f, indent=1, sort_keys=True)
     for sig, msg, n in hit:
         print("KNOWN-FINDING: property=%s %s [%s] (%d cases)" % (pid, known[sig].get("what", msg), sig, n))
-    for e in st.errors:
-        print("ERROR property=%s machinery: %s" % (pid, e))
+    for e in st.errors[:3]:
+        print("ERROR property=%s machinery: %s" % (pid, e[-1500:]))
+    if len(st.errors) > 3:
+        print("ERROR property=%s machinery: ... %d more errors" % (pid, len(st.errors) - 3))
     for sig, msg, path, n in new:
-        print("VIOLATION property=%s replay=%s  sig=%s (%d cases) %s" % (pid, path, sig, n, msg))
+        print("VIOLATION property=%s replay=%s  sig=%s (%d cases) %s" % (pid, path, sig, n, msg[:400]))
     print("%s tier=%s seed=%d evaluations=%d states=%d transitions=%d nontrivial=%d outcomes=%d "
           "violations=%d known=%d errors=%d wall=%.1fs" % (
               pid, tier, seed, st.evaluations, len(st.states), st.transitions,
